@@ -32,7 +32,7 @@ if ok:
     try:
         for c in checks:
             t = time.time()
-            rc, out = sh(f"cd {V} && bin/check {c}")
+            rc, out = sh(f"cd {V} && VERIF_EVIDENCE_DIR=/verif/build/scratch_evidence bin/check {c}")
             lines = [l for l in out.split("\n") if l.startswith("VIOLATION")]
             res[c] = {"exit": rc, "wall_s": round(time.time() - t, 1), "lines": [l[:400] for l in lines[:4]]}
             print(c, "exit", rc, *[l[:260] for l in lines[:2]], flush=True)
